@@ -18,7 +18,7 @@ from fractions import Fraction
 import mpmath
 import numpy
 
-from common import (Stream, budget, enc_op, enc_term, to_gq, dyadic, rng_for, show)
+from common import (Stream, budget, enc_op, enc_term, to_gq, dyadic, rng_for, show, canon_op_json)
 
 mpmath.mp.dps = 60
 MARGIN = Fraction(1, 10 ** 9)
@@ -32,14 +32,15 @@ TRUSTED = [
     'C02: CPython set iteration order is taken from the running interpreter (the harness passes the observed order to the Model); the theorems quantify over every order',
 ]
 ASSUMPTIONS = [
-    'numeric coefficients only (int / float / complex); sympy coefficients are not modelled',
+    'numeric coefficients only (Python int / bool / float / complex and numpy scalars float32 / float64 / complex64 / complex128 / int32 / int64 wherever plain abs / subtraction / max accept them; numpy.bool_ is rejected by subtraction and excluded); sympy coefficients are not modelled',
+    'observation outside this property (not checked, reported to the integrator): hermitian_conjugated(InteractionOperator) with real-dtype tensors returns tensors that SHARE MEMORY with the argument (ndarray.T.conj() of a real array is a view), so editing the conjugate in place edits the original',
     'operators are in the state their class maintains (QubitOperator terms index-sorted, BosonOperator / QuadOperator terms index-sorted by the constructor, Majorana terms strictly increasing); `terms` dictionaries edited by hand into other shapes are out of scope',
     'comparisons whose decision has a relative margin < 1e-9 (where double rounding of abs / multiplication could matter) are discarded and counted, never compared',
     'is_hermitian of sparse matrices / numpy arrays is not covered here (numeric kernels); InteractionOperator is covered (Model tie + Spec oracle, no theorem)',
 ]
 OPEN_STATEMENTS = [
-    'commutes_with general path (self*other == other*self): the denotation of the Model product mmul is a C01 statement; here the shortcut is proved equivalent both to the Model products being equal and to commutation in the Spec (majorana_terms_commute_iff); operators with several terms are covered by the spec.eq oracle',
-    'is_hermitian: proved for FermionOperator (is_hermitian_fermion_iff: Hermitian in the Spec <=> the two normal-ordered dictionaries have equal coefficients; completeness of the coded test in the exact regime); for BosonOperator / QubitOperator / QuadOperator / InteractionOperator only the Model tie and the Spec oracle (InteractionOperator: non-symmetrised storage of Hermitian operators is generated on purpose); for QuadOperator the implementation is incomplete (known finding F02e)',
+    'commutes_with general path: proved in the exact regime (commutes_with_general_iff_partial: explicit decidable hypothesis that coefficients numpy.isclose calls close are equal) using Majorana canonicity (majorana_strings_independent); that the Model product mmul has the matrix elements of the product of the denoted operators is C01.mul_hom_majorana; outside the exact regime only the spec.eq oracle',
+    'is_hermitian: proved for FermionOperator (is_hermitian_fermion_iff: Hermitian in the Spec <=> the two normal-ordered dictionaries have equal coefficients; completeness of the coded test in the exact regime); also proved for QubitOperator (Pauli strings Hermitian and linearly independent: Hermitian <=> all coefficients real; coded test <=> every coefficient within tolerance of its conjugate); for InteractionOperator the soundness direction (coded test True => operator equals its formal adjoint in every CAR algebra, exact regime: is_hermitian_io_sound_partial), completeness by the oracle stream only; for BosonOperator / QuadOperator only the Model tie and the Spec oracle (InteractionOperator: non-symmetrised storage of Hermitian operators is generated on purpose); for QuadOperator the implementation is incomplete (known finding F02e)',
     'float rounding inside abs()/hypot and tol*max(..) is outside the Model (guarded by the 1e-9 margin rule)',
 ]
 
@@ -84,7 +85,7 @@ def safe_lt(lhs, rhs, tie_exact=False):
 
 
 def is_real(c):
-    return not isinstance(c, complex) or c.imag == 0
+    return not isinstance(c, (complex, numpy.complexfloating)) or c.imag == 0
 
 
 def small_dyadic(*xs):
@@ -93,7 +94,7 @@ def small_dyadic(*xs):
     for x in xs:
         if not is_real(x):
             return False
-        f = Fraction(x.real if isinstance(x, complex) else x)
+        f = Fraction(float(x.real) if isinstance(x, (complex, numpy.complexfloating)) else float(x))
         d = f.denominator
         if d & (d - 1):
             return False
@@ -1084,6 +1085,388 @@ def stream_hermitian_io(ctx):
     return s
 
 
+# ---------------------------------------------------------------- hardening: types, bands, state, asymmetry
+
+BAND = [2.0 ** -k for k in (14, 15, 17, 20, 22, 23)]     # 6e-5 .. 1.2e-7, dyadic
+NP_SCALARS = [('float64', numpy.float64), ('complex128', numpy.complex128), ('float32', numpy.float32),
+              ('complex64', numpy.complex64), ('int64', numpy.int64), ('int32', numpy.int32)]
+PY_SCALARS = [('int', int), ('float', float), ('complex', complex)]
+
+
+def arith_ok(ty):
+    """can the value take part in abs / subtraction / max as isclose needs them?  (a pure
+    Python / numpy probe, independent of the library)"""
+    try:
+        v = ty(2)
+        abs(v - v) < 1.0 * max(1, abs(v), abs(v))
+        return True
+    except Exception:  # noqa
+        return False
+
+
+def cast_val(ty, x):
+    if ty in (int, numpy.int64, numpy.int32):
+        return ty(int(x)) if float(x).is_integer() else ty(2)
+    if ty in (complex, numpy.complex128, numpy.complex64):
+        return ty(complex(x, -x / 2))
+    return ty(x)
+
+
+def terms_snapshot(op):
+    return [(k, type(v).__name__, to_gq(v)) for k, v in op.terms.items()]
+
+
+def stream_hardening(ctx):
+    of = ctx.of
+    is_identity = of.utils.operator_utils.is_identity
+    is_hermitian = of.utils.operator_utils.is_hermitian
+    hc = of.utils.operator_utils.hermitian_conjugated
+    s = Stream('hardening', 'isclose / == / != with numpy-scalar and Python coefficients placed into .terms (mixed types on the two '
+               'sides), mode indices up to 300, differences and one-sided coefficients of magnitude 2^-14 .. 2^-23 next to O(1), purely '
+               'imaginary values, both operand orders, called twice, operands and predicates (is_identity, is_normal_ordered) unchanged '
+               'by the comparison; Majorana == / commutes_with likewise; tensor == with int32 / int64 / float32 / float64 / complex64 / '
+               'complex128 arrays, Fortran order, sizes 5 / 9 / 17, band differences, arrays unmodified; hermitian_conjugated / '
+               'is_hermitian twice around in-place modification; is_hermitian(InteractionOperator) with integer / complex64 tensors and '
+               'numpy / complex constants; predicates on terms with indices >= 257; all comparisons exact, float_comparisons = 0')
+    rng = rng_for(ctx.seed, 'c02-hard')
+    scal = [(nm, ty) for nm, ty in PY_SCALARS + NP_SCALARS if arith_ok(ty)]
+    n = budget(ctx.tier, 150, 2500)
+    if ctx.drift:
+        n = max(n, 600)
+    # ---- isclose: types, bands, large indices, state
+    reqs, cases = [], []
+    for cls in ('qubit', 'fermion'):
+        C = cls_of(of, cls)
+        for _ in range(n):
+            tol_arg = rng.choice([None, None, 2.0 ** -10, 2.0 ** -16])
+            tol = Fraction(of.config.EQ_TOLERANCE) if tol_arg is None else Fraction(tol_arg)
+            pool = term_pool(rng, cls, rng.choice([2, 4, 8]), max_len=3, max_index=rng.choice([5, 300]))
+            ta, tb = {}, {}
+            ana, anb = rng.choice(scal), rng.choice(scal)
+            for t in pool:
+                x = rng.choice([1.0, -1.0, 2.0, 0.5, 1.5, 3.0, 16.0])
+                k = rng.random()
+                if k < 0.2:      # one-sided, band or tiny
+                    side = ta if rng.random() < 0.5 else tb
+                    v = rng.choice(BAND + [2.0 ** -27, 2.0 ** -30]) * rng.choice([1, -1])
+                    side[t] = rng.choice([float, numpy.float64, numpy.float32])(v) if rng.random() < 0.7 else complex(0.0, v)
+                    continue
+                ta[t] = cast_val(ana[1], x)
+                if k < 0.55:     # equal value, possibly another type
+                    tb[t] = cast_val(anb[1], x) if exact(cast_val(anb[1], x)) == exact(ta[t]) else ta[t]
+                elif k < 0.85:   # band difference (python float / complex carries the small part exactly)
+                    d = rng.choice(BAND) * rng.choice([1, -1])
+                    base = complex(ta[t])
+                    tb[t] = (base + (complex(0.0, d) if rng.random() < 0.3 else d))
+                    if tb[t].imag == 0 and rng.random() < 0.5:
+                        tb[t] = tb[t].real
+                else:
+                    tb[t] = cast_val(anb[1], -x)
+            case = {'cls': cls, 'a': enc_op(cls, ta), 'b': enc_op(cls, tb), 'tol': frac_json(tol),
+                    'types': [ana[0], anb[0]]}
+            want, ok = isclose_exact(ta, tb, tol)
+            if not ok:
+                s.discards += 1
+                continue
+            a, b = mk(C, ta), mk(C, tb)
+            sa, sb = terms_snapshot(a), terms_snapshot(b)
+            try:
+                pre = (is_identity(a), is_identity(b), a.is_normal_ordered() if cls == 'fermion' else None)
+                if tol_arg is None:
+                    r = [a.isclose(b), b.isclose(a), a == b, not (a != b), a.isclose(b)]
+                else:
+                    r = [a.isclose(b, tol_arg), b.isclose(a, tol_arg), a.isclose(b, tol_arg)]
+                post = (is_identity(a), is_identity(b), a.is_normal_ordered() if cls == 'fermion' else None)
+            except Exception as e:  # noqa
+                s.violate('isclose raised %s' % type(e).__name__, case, {'error': repr(e)})
+                continue
+            s.case(case)
+            s.count('isclose:%s/%s:%s' % (ana[0], anb[0], want))
+            if terms_snapshot(a) != sa or terms_snapshot(b) != sb:
+                s.violate('a comparison modified its operands', case, {})
+            if pre != post:
+                s.violate('a predicate changed its answer after a comparison', case, {'before': pre, 'after': post})
+            if any(bool(x) != want for x in r):
+                s.violate('isclose / == / != (types, bands) differs from the per-term statement', case,
+                          {'answers': [bool(x) for x in r], 'statement': want})
+            reqs.append({'op': 'c02.isclose', 'a': case['a'], 'b': case['b'], 'tol': case['tol']})
+            cases.append((case, want))
+    for (case, want), ans in zip(cases, ctx.driver.run(reqs)):
+        if ans['model'] != want or ans['spec'] != want:
+            s.disagree('isclose Model / Spec vs exact statement (types, bands)', case, want, ans)
+    # ---- Majorana: numpy scalars, bands, state, scalar argument types
+    M = of.MajoranaOperator
+    rtol_f, atol_f = np_defaults()
+    rtol, atol = Fraction(rtol_f), Fraction(atol_f)
+    reqs, cases = [], []
+    for _ in range(n):
+        pool = term_pool(rng, 'majorana', rng.choice([1, 2, 4]), max_len=3, max_index=rng.choice([9, 300]))
+        ta, tb = {}, {}
+        ana = rng.choice(scal)
+        for t in pool:
+            x = rng.choice([1.0, 2.0, -0.5, 4.0])
+            ta[t] = cast_val(ana[1], x)
+            k = rng.random()
+            if k < 0.4:
+                tb[t] = ta[t]
+            elif k < 0.8:
+                tb[t] = complex(ta[t]) * (1 + rng.choice([2.0 ** -17, 2.0 ** -16, -2.0 ** -18, 2.0 ** -14, 2.0 ** -23]))
+            elif k < 0.9:
+                del ta[t]
+                tb[t] = rng.choice(BAND + [2.0 ** -27, 2.0 ** -30])
+            else:
+                tb[t] = complex(0.0, 1.0) * complex(ta[t])
+        coded, stmt, ok, window = maj_eq_exact(ta, tb, atol, rtol)
+        case = {'a': enc_op('majorana', ta), 'b': enc_op('majorana', tb), 'type': ana[0]}
+        if not ok:
+            s.discards += 1
+            continue
+        a, b = M.from_dict(dict(ta)), M.from_dict(dict(tb))
+        sa, sb = terms_snapshot(a), terms_snapshot(b)
+        try:
+            r = [a == b, b == a, not (a != b), a == b]
+            cw1 = a.commutes_with(b)
+            cw2 = a.commutes_with(b)
+        except Exception as e:  # noqa
+            s.violate('Majorana comparison raised %s' % type(e).__name__, case, {'error': repr(e)})
+            continue
+        s.case(case)
+        s.count('majorana:%s:%s' % (ana[0], stmt))
+        if terms_snapshot(a) != sa or terms_snapshot(b) != sb:
+            s.violate('a Majorana comparison / commutes_with modified its operands', case, {})
+        if any(bool(x) != stmt for x in r) or bool(cw1) != bool(cw2):
+            s.violate('Majorana == (types, bands) differs from the symmetric per-term statement / is not repeatable', case,
+                      {'answers': [bool(x) for x in r], 'statement': stmt})
+        reqs.append({'op': 'c02.majeq', 'a': case['a'], 'b': case['b'], 'atol': frac_json(atol), 'rtol': frac_json(rtol)})
+        cases.append((case, stmt))
+    for (case, want), ans in zip(cases, ctx.driver.run(reqs)):
+        if ans['model'] != want:
+            s.disagree('Majorana == Model vs exact statement (types, bands)', case, want, ans['model'])
+    a = M((0, 1), 2.0)
+    for x in (2, 0.5, 1j, True, numpy.float64(2.0), numpy.complex128(1j), numpy.float32(2), numpy.int64(3)):
+        if not isinstance(x, (int, float, complex)):
+            continue                       # not a scalar for the library (documented isinstance test)
+        s.case({'commutes_with_scalar': type(x).__name__}, nontrivial=False)
+        if a.commutes_with(x) is not True:
+            s.violate('commutes_with(scalar) is not True', {'scalar': type(x).__name__}, {})
+    # ---- tensor ==: dtypes, order, sizes, bands, state
+    tol_f = of.config.EQ_TOLERANCE
+    tolq = Fraction(tol_f)
+    dts = [numpy.int32, numpy.int64, numpy.float32, numpy.float64, numpy.complex64, numpy.complex128]
+    reqs, cases = [], []
+    for _ in range(budget(ctx.tier, 120, 1500)):
+        nq = rng.choice([1, 2, 3, 5, 5, 9, 17])
+        keys = [(1, 0)] if nq > 3 else rng.choice([[(1, 0)], [(), (1, 0)], [(), (1, 0), (1, 1, 0, 0)]])
+        da, db = rng.choice(dts), rng.choice(dts)
+
+        def arr(dt, base=None, key=(1, 0)):
+            shape = (nq,) * len(key)
+            if base is None:
+                v = [rng.choice([0, 0, 1, -1, 2, 3]) for _x in range(nq ** len(key))]
+                out = numpy.array(v).reshape(shape)
+            else:
+                out = numpy.array(base)
+            out = out.astype(dt)
+            return numpy.asfortranarray(out) if rng.random() < 0.4 else out
+        ta = {}
+        tb = {}
+        for kk in keys:
+            if kk == ():
+                c = rng.choice([1, 2.0, 1 + 2j, numpy.complex64(2j), numpy.float32(0.5), True])
+                ta[kk] = c
+                tb[kk] = c if rng.random() < 0.7 else complex(c) + rng.choice(BAND)
+                continue
+            A = arr(da, key=kk)
+            ta[kk] = A
+            B = arr(db, base=A, key=kk)
+            mode = rng.random()
+            if mode < 0.5 and B.dtype.kind in 'fc':
+                idx = tuple(rng.randrange(nq) for _x in kk)
+                if B.dtype.itemsize >= 8 and B.dtype != numpy.complex64:
+                    B[idx] += rng.choice(BAND + [2.0 ** -27, 2.0 ** -30]) * rng.choice([1, -1])
+                else:                       # float32 / complex64: only a zero entry can carry a tiny value exactly
+                    if B[idx] == 0:
+                        B[idx] = rng.choice([2.0 ** -20, 2.0 ** -27, 2.0 ** -30])
+            elif mode < 0.6:
+                idx = tuple(rng.randrange(nq) for _x in kk)
+                B[idx] = B[idx] + 1
+            tb[kk] = B
+        if all(k == () for k in ta):
+            continue
+        case = {'na': nq, 'nb': nq, 'a': tensor_json(ta), 'b': tensor_json(tb), 'dtypes': [da.__name__, db.__name__]}
+        want, ok = tensor_exact(nq, ta, nq, tb, tolq)
+        if not ok:
+            s.discards += 1
+            continue
+        copies = {k: (numpy.array(v, copy=True) if isinstance(v, numpy.ndarray) else v) for k, v in list(ta.items())}
+        copies_b = {k: (numpy.array(v, copy=True) if isinstance(v, numpy.ndarray) else v) for k, v in list(tb.items())}
+        try:
+            a, b = of.PolynomialTensor(dict(ta)), of.PolynomialTensor(dict(tb))
+            r = [a == b, b == a, not (a != b), a == b]
+        except Exception as e:  # noqa
+            s.violate('tensor == raised %s' % type(e).__name__, case, {'error': repr(e)})
+            continue
+        s.case(case)
+        s.count('tensor:%s/%s:n=%d:%s' % (da.__name__, db.__name__, nq, want))
+        same = all(numpy.array_equal(a.n_body_tensors[k], copies[k]) for k in copies) and \
+            all(numpy.array_equal(b.n_body_tensors[k], copies_b[k]) for k in copies_b)
+        if not same:
+            s.violate('tensor == modified its operands', case, {})
+        if any(bool(x) != want for x in r):
+            s.violate('tensor == (dtypes, bands) differs from "every entry within EQ_TOLERANCE"', case,
+                      {'answers': [bool(x) for x in r], 'statement': want})
+        reqs.append({'op': 'c02.tensoreq', 'na': nq, 'nb': nq, 'a': case['a'], 'b': case['b'], 'tol': frac_json(tolq)})
+        cases.append((case, want))
+    for (case, want), ans in zip(cases, ctx.driver.run(reqs)):
+        if ans['model'] != want or ans['spec'] != want:
+            s.disagree('tensor == Model / Spec vs exact statement (dtypes, bands)', case, want, ans)
+    # ---- hermitian_conjugated / is_hermitian: state
+    for cls in ('qubit', 'fermion', 'boson', 'quad'):
+        C = cls_of(of, cls)
+        for _ in range(budget(ctx.tier, 25, 300)):
+            op = C()
+            for _k in range(rng.choice([1, 2, 3])):
+                op += C(rand_term(rng, cls, 3, 2), dyadic(rng, max_num=3, max_pow=1))
+            if rng.random() < 0.5:
+                op.terms[tuple(rand_term(rng, cls, 2, 2))] = rng.choice(BAND) * rng.choice([1, 1j])
+            case = {'cls': cls, 'terms': enc_op(cls, op.terms)}
+            snap = terms_snapshot(op)
+            try:
+                h1 = hc(op)
+                j1 = enc_op(cls, h1.terms)
+                r1 = is_hermitian(op)
+                h1 *= 2.0
+                h1 += C((), 1.0)
+                h2 = hc(op)
+                r2 = is_hermitian(op)
+            except Exception as e:  # noqa
+                s.violate('hermitian_conjugated / is_hermitian raised %s' % type(e).__name__, case, {'error': repr(e)})
+                continue
+            s.case(case)
+            s.count('hermitian-state:' + cls)
+            if terms_snapshot(op) != snap or h1 is op or h2 is h1 or h1.terms is op.terms:
+                s.violate('hermitian_conjugated / is_hermitian modified or aliased its argument', case, {})
+            if canon_op_json(enc_op(cls, h2.terms)) != canon_op_json(j1) or bool(r1) != bool(r2):
+                s.violate('hermitian_conjugated / is_hermitian not repeatable after in-place modification of the first result',
+                          case, {'first': j1, 'second': enc_op(cls, h2.terms)})
+    # ---- is_hermitian(InteractionOperator): integer / complex64 / float32 tensors, numpy and complex constants
+    rows = []
+    for _ in range(budget(ctx.tier, 60, 800)):
+        nq = rng.choice([2, 2, 3, 4])
+        dt = rng.choice(dts)
+        integral = dt in (numpy.int32, numpy.int64)
+        cplx = dt in (numpy.complex64, numpy.complex128)
+
+        def val():
+            if rng.random() < 0.6:
+                return 0
+            v = rng.choice([1, -1, 2, 3])
+            if not integral and rng.random() < 0.3:
+                v = rng.choice([0.5, -1.5, 2.0 ** -15])
+            if cplx and rng.random() < 0.5:
+                v = complex(0, v) if rng.random() < 0.5 else complex(v, 1)
+            return v
+        S2 = numpy.array([val() for _x in range(nq ** 4)], dtype=complex).reshape((nq,) * 4)
+        M1 = numpy.array([val() for _x in range(nq * nq)], dtype=complex).reshape((nq, nq))
+        kind = rng.choice(['hermitian', 'hermitian', 'gauge', 'raw'])
+        if kind != 'raw':
+            S2 = S2 + numpy.conj(numpy.transpose(S2, (3, 2, 1, 0)))
+            M1 = M1 + M1.conj().T
+        if kind == 'gauge':
+            for _k in range(3):
+                p, q, r, u = (rng.randrange(nq) for _x in range(4))
+                x = rng.choice([1, 2, -1])
+                S2[p, q, r, u] += x
+                S2[q, p, r, u] += x
+        if not cplx:
+            S2, M1 = S2.real, M1.real
+        two, one = S2.astype(dt), M1.astype(dt)
+        if rng.random() < 0.4:
+            two, one = numpy.asfortranarray(two), numpy.asfortranarray(one)
+        const = rng.choice([1, 0.5, numpy.float32(2), numpy.int64(3), True, numpy.complex64(2), 1j, numpy.complex128(1 + 1j), 2 + 0j,
+                            numpy.complex64(1 + 2j), numpy.complex64(-1j), numpy.complex64(0.5)])
+        case = {'n': nq, 'kind': kind, 'dtype': dt.__name__, 'constant_type': type(const).__name__,
+                'constant': to_gq(const), 'one_body': [to_gq(x) for x in one.reshape(-1)],
+                'two_body': [to_gq(x) for x in two.reshape(-1)]}
+        one0, two0 = one.copy(), two.copy()
+        try:
+            io = of.InteractionOperator(const, one, two)
+            r1 = is_hermitian(io)
+            r2 = is_hermitian(io)
+        except Exception as e:  # noqa
+            s.violate('is_hermitian(InteractionOperator) raised %s' % type(e).__name__, case, {'error': repr(e)})
+            continue
+        if not (numpy.array_equal(io.one_body_tensor, one0) and numpy.array_equal(io.two_body_tensor, two0)):
+            s.violate('is_hermitian(InteractionOperator) modified its argument', case, {})
+        if bool(r1) != bool(r2):
+            s.violate('is_hermitian(InteractionOperator) is not repeatable', case, {})
+        rows.append((case, nq, complex(const), one0, two0, bool(r1)))
+    reqs = []
+    for case, nq, const, one, two, r in rows:
+        items = dict()
+        for t, c in io_fermion_items(nq, const, one, two):
+            items[t] = items.get(t, 0) + c
+        reqs.append({'op': 'spec.eq', 'alg': 'fermion', 'n': nq, 'lhs': ['leaf', enc_raw('fermion', items)],
+                     'rhs': ['leaf', enc_raw('fermion', dagger('fermion', items))]})
+        reqs.append({'op': 'c02.hermitian_io', 'n': nq, 'constant': case['constant'], 'one_body': case['one_body'],
+                     'two_body': case['two_body']})
+    ans = ctx.driver.run(reqs)
+    for i, (case, nq, const, one, two, r) in enumerate(rows):
+        s.case(case)
+        s.count('hermitian-io:%s:%s:impl=%s:spec=%s' % (case['dtype'], case['kind'], r, ans[2 * i]['eq']))
+        if ans[2 * i + 1]['model'] != r:
+            s.disagree('is_hermitian(InteractionOperator) (dtypes)', case, r, ans[2 * i + 1]['model'])
+        if ans[2 * i]['eq'] != r:
+            s.violate('is_hermitian(InteractionOperator) (dtypes) differs from A = A^dagger in the Spec', case,
+                      {'implementation': r, 'spec': ans[2 * i]['eq']})
+    # ---- predicates on terms with mode indices >= 257, before and after comparisons
+    reqs, cases = [], []
+    for cls in ('fermion', 'boson'):
+        C = cls_of(of, cls)
+        for _ in range(budget(ctx.tier, 60, 600)):
+            base = rng.choice([255, 256, 257, 298])
+            ln = rng.choice([2, 4, 4, 3])
+            half = ln // 2
+            cr = sorted(rng.sample(range(base, base + 4), min(half, 4)), reverse=True)
+            an = sorted(rng.sample(range(base, base + 4), min(ln - half, 4)), reverse=True)
+            t = tuple((i, 1) for i in cr) + tuple((i, 0) for i in an)
+            if rng.random() < 0.4 and len(t) >= 2:
+                t = list(t)
+                i, j = rng.sample(range(len(t)), 2)
+                t[i], t[j] = t[j], t[i]
+                t = tuple(t)
+            op = C(t, rng.choice([1.0, numpy.float64(2.0), 1j]))
+            case = {'cls': cls, 'stored': enc_op(cls, op.terms)}
+            try:
+                def preds():
+                    g = {'is_normal_ordered': bool(op.is_normal_ordered()), 'is_identity': bool(is_identity(op))}
+                    if cls == 'fermion':
+                        g['two_body'] = bool(op.is_two_body_number_conserving())
+                        g['two_body_spin'] = bool(op.is_two_body_number_conserving(check_spin_symmetry=True))
+                    else:
+                        g['boson_preserving'] = bool(op.is_boson_preserving())
+                    return g
+                g1 = preds()
+                _ = (op == op, op != C(t, 2.0), op.isclose(C()))
+                g2 = preds()
+            except Exception as e:  # noqa
+                s.violate('predicate raised %s' % type(e).__name__, case, {'error': repr(e)})
+                continue
+            s.case(case)
+            s.count('predicates:index>=257:' + cls)
+            if g1 != g2:
+                s.violate('a predicate changed its answer after comparisons', case, {'before': g1, 'after': g2})
+            reqs.append({'op': 'c02.pred', 'cls': cls, 'a': case['stored']})
+            cases.append((case, g1))
+    for (case, got), ans in zip(cases, ctx.driver.run(reqs)):
+        for k, v in got.items():
+            if ans[k] != v:
+                s.disagree(k + ' (index >= 257)', case, v, ans[k])
+            if 'spec_' + k in ans and ans['spec_' + k] != v:
+                s.violate('%s (index >= 257) differs from its definition' % k, case, {'implementation': v, 'spec': ans['spec_' + k]})
+    return s
+
+
 # ---------------------------------------------------------------- known findings
 
 def classify(v):
@@ -1124,4 +1507,4 @@ def probe_known(ctx, k):
 
 def run(ctx):
     return [stream_isclose(ctx), stream_majorana_eq(ctx), stream_commutes(ctx), stream_predicates(ctx),
-            stream_identity(ctx), stream_tensor_eq(ctx), stream_hermitian(ctx), stream_hermitian_io(ctx)]
+            stream_identity(ctx), stream_tensor_eq(ctx), stream_hermitian(ctx), stream_hermitian_io(ctx), stream_hardening(ctx)]
